@@ -5,6 +5,7 @@
 mod util;
 mod c01;
 mod c04;
+mod c05;
 mod c15;
 mod walk;
 
@@ -43,6 +44,7 @@ fn main() {
     let summary = match args[1].as_str() {
         "c01" => c01::run(&o, deck),
         "c04" => c04::run(&o, deck),
+        "c05" => c05::run(&o, deck),
         "c15" => c15::run(&o, deck),
         "walk" => walk::run(&o, deck, "walk"),
         x => {
